@@ -332,12 +332,11 @@ class SFTPServer(BaseSFTP, SubsystemHandler):
         offset = start
         while offset < start + length:
             blocklen = min(block_size, start + length - offset)
-            # don't try to read more than about 64KB at a time
-            chunklen = min(blocklen, 65536)
             count = 0
             hash_obj = alg()
             while count < blocklen:
-                data = f.read(offset, chunklen)
+                # don't try to read more than about 64KB at a time
+                data = f.read(offset, min(blocklen - count, 65536))
                 if not isinstance(data, bytes):
                     self._send_status(
                         request_number, data, "Unable to hash file"
@@ -345,7 +344,7 @@ class SFTPServer(BaseSFTP, SubsystemHandler):
                     return
                 hash_obj.update(data)
                 count += len(data)
-                offset += count
+                offset += len(data)
             sum_out += hash_obj.digest()
 
         msg = Message()
